@@ -408,6 +408,11 @@ example : authorizedKeysOf 2048
     [{ raw := [Char.ofNat 0xEF, Char.ofNat 0xBB, Char.ofNat 0xBF] ++ "#ssh-ed25519 AAAA ghost".toList, verdict := .error },
      { raw := "ssh-ed25519 AAAA alice".toList, verdict := .key .ed25519 "alice" }] = none := by decide
 
+/-- Configure adds the logger, then the authentication middleware, then the internal rate limiter: authentication failures
+    are answered (401) before the limiter is consulted and do not use up its budget -/
+theorem fact_middleware_order :
+    Facts.C04.middlewareOrder = ["h.applyLoggerMiddleware", "h.applyAuthMiddleware", "h.applyRateLimiterMiddleware"] := by decide
+
 /-! ### the decision does not depend on earlier requests -/
 
 /-- the middleware value holds exactly audience, authorised keys and skipper; every method has a value receiver, assigns to
